@@ -961,12 +961,22 @@ pub fn index_chroms(file: VLines) -> (r: Result<Option<Vec<Entry>>, IoError>)
     file.read_line(&mut line)?;
 
     if line.is_empty() {
+
+        // C18 "yields ... the byte offset of the first line of each chromosome run, or reports that the file is not grouped":
+        // a file with at least one line is indexed, not turned away.  The "Empty file" refusal is justified only by an
+        // empty FILE -- which the code may conclude from an empty buffer only if the first line was read into it.
+        proof { if c.len() > 0 { lemma_nls(c, 0); } }
+        assert(c.len() == 0); 
         return Err(err_empty_file());
     }
 
     let mut chroms = CList::new();
 
 
+
+    // hint only (a non-empty file has a non-empty first line): lets a variant that tests the byte count returned by
+    // `read_line` instead of `line.is_empty()` be judged green
+    proof { if c.len() > 0 { lemma_nls(c, 0); } }
     let chrom = parse_line(&line)?.unwrap();
 
     assert(line.text() =~= line_at(c, 0)); 
